@@ -215,7 +215,40 @@ def generate():
                        "From OfxV Require Import Base.Prelude Model.Schema Gen.SchemaGen.\n"
                        "Definition S : schema := Eval vm_compute in compile raw_classes.\n"
                        "Lemma S_is_compiled : S = compile raw_classes.\nProof. vm_compute. reflexivity. Qed.\n")
+    write_typed(d)
     return d
+
+
+def write_typed(d):
+    """Gen/TypedGen.v: id -> element type as the Scalars engine (Model/Scalars.v) describes it; date-time types stay abstract"""
+    enum_tokens = {i: toks for toks, i in d["enums"].items()}
+
+    def opt(n):
+        return "None" if n is None else "(Some %d)" % n
+
+    def elem(t):
+        k = t[0]
+        if k == "Bool": return "ESty (Elem TBool %s)" % C.cbool(t[1])
+        if k == "String": return "ESty (Elem (TString %s true) %s)" % (opt(t[1]), C.cbool(t[2]))
+        if k == "NagString": return "ESty (Elem (TString %s false) %s)" % (opt(t[1]), C.cbool(t[2]))
+        if k == "OneOf": return "ESty (Elem (TOneOf enum_%d) %s)" % (t[1], C.cbool(t[2]))
+        if k == "Integer": return "ESty (Elem (TInteger %s) %s)" % (opt(t[1]), C.cbool(t[2]))
+        if k == "Decimal":
+            sc = None
+            if t[1] is not None:
+                import decimal
+                sc = -decimal.Decimal(t[1]).as_tuple().exponent
+            return "ESty (Elem (TDecimal %s) %s)" % (opt(sc), C.cbool(t[2]))
+        if k == "DateTime": return "EDateTime %s" % C.cbool(t[1])
+        if k == "Time": return "ETime %s" % C.cbool(t[1])
+        return "EUnknown"
+    out = ["(** GENERATED by tools/ofxv/translate_schema.py: the element types of Gen/SchemaGen.v in terms of Model/Scalars.v -- do not edit *)",
+           "From OfxV Require Import Base.Prelude Model.Scalars Model.Typed.", "Local Open Scope N_scope.", ""]
+    for i in sorted(enum_tokens):
+        out.append("Definition enum_%d : list text := [%s]." % (i, ";".join(C.ctext(t) for t in enum_tokens[i])))
+    inv = sorted((i, t) for t, i in d["etys"].items())
+    out.append("Definition ety_table : list (N * ety) :=\n [ " + "\n ; ".join("(%d, %s)" % (i, elem(t)) for i, t in inv) + " ].")
+    C.write_if_changed(os.path.join(C.THEORIES, "Gen", "TypedGen.v"), "\n".join(out) + "\n")
 
 
 if __name__ == "__main__":
